@@ -129,6 +129,13 @@ fn load_package(
         )));
     };
 
+    if name == "Builtin" {
+        return Err(compile_error(format!(
+            "package directory {} declares package Builtin, which is reserved for the builtin package",
+            package_dir.display()
+        )));
+    }
+
     let imports = collect_imports(&files);
     Ok(PackageUnit {
         name,
